@@ -52,20 +52,20 @@ type VC struct {
 	funcIDs  map[string]int
 	usedSub  map[string]bool
 
-	Warnings    []string
-	Unmodelled  map[string]int
-	Assumptions map[string]bool
-	CalleesUsed map[string]string // callee -> how (contract/inline/model/havoc/summary)
-	entry       *State
-	callN       int
-	safety      bool
-	specDepth   int
-	nsub        int
-	libVars     map[string]bool
-	frameAllowed map[string][]string
-	globals     map[string]string
-	symSorts    map[string]string
-	symScan     int
+	Warnings       []string
+	Unmodelled     map[string]int
+	Assumptions    map[string]bool
+	CalleesUsed    map[string]string // callee -> how (contract/inline/model/havoc/summary)
+	entry          *State
+	callN          int
+	safety         bool
+	specDepth      int
+	nsub           int
+	libVars        map[string]bool
+	frameAllowed   map[string][]string
+	globals        map[string]string
+	symSorts       map[string]string
+	symScan        int
 	ContractErrors []string
 }
 
